@@ -167,3 +167,34 @@ def run(cx):
                  sample={'fn': shorten(path + '(')[:-1], 'forward': rets[0].term[:80] if rets else '', 'holds': ok and len(io) == 1})
     other = [g for g in cx.prog.find(r'^<hickory_net::runtime::iocompat::AsyncIo\w+<\w> as [\w:]+>::\w+$') if g.path not in FWD]
     cx.check('C17.T1', not other, 'iocompat', 'methods', 'no-unreviewed-adapter-method', ', '.join(shorten(g.path + '(')[:-1] for g in other))
+
+    # ---------------------------------------------------------------- G3 reads land in the state, not in a copy of it
+    # the bytes of a length prefix (or body) that arrives in several reads accumulate only if every read writes into the buffer
+    # held by the state machine: the slice handed to poll_read must be a re-borrow THROUGH the reference that binds the state's
+    # `bytes` field (a `mut bytes` by-value binding of the [u8; 2] prefix compiles, and silently reads into a temporary)
+    nbuf = 0
+    for bi, c_, t_ in cx.prog.calls_of(f):
+        nm = c_.get('res') or c_['def']
+        tt = shorten(f.term_call(t_, 0))
+        if 'index_mut' not in nm or not re.search(r'@(LenBytes|Bytes)\.bytes', tt) or 'RangeFrom' not in tt:
+            continue
+        if not re.search(r'TcpStream::pollable_split\(arg1\)\.3', tt):
+            continue            # read state only (the write side slices shared data)
+        nbuf += 1
+        a0 = t_[2][0]
+        l0 = a0[1] if isinstance(a0[1], int) else a0[1][0]
+        ok = False
+        why = 'argument is not a single mutable re-borrow'
+        ds = [d for d in f.defs().get(l0, []) if d[2] == 'assign']
+        if len(ds) == 1 and ds[0][3][0] == 'ref':
+            pl = ds[0][3][1]
+            if isinstance(pl, list) and '*' in pl[1:]:
+                base = pl[0]
+                bd = [d for d in f.defs().get(base, []) if d[2] == 'assign']
+                ok = bool(bd) and all(d[3][0] == 'ref' for d in bd)
+                why = 'the reference it re-borrows binds the state field by reference' if ok else 'the re-borrowed local is not a by-reference binding of the state field'
+            else:
+                why = 'the buffer is a local VALUE (a by-value copy of the state field), not a re-borrow of the state'
+        cx.check('C17.G3', ok, f.path, f'call:index_mut#{nbuf - 1}', 'read-buffer-is-the-state-own-buffer', why + ': ' + tt[:120], f.loc(bi),
+                 sample={'fn': 'TcpStream::poll_next', 'buffer': tt[:90], 'holds': ok})
+    cx.floor('C17.G3', nbuf, 2, 'read buffers handed to poll_read (length prefix, body)')
